@@ -24,6 +24,71 @@ CHECKS = {
         text="Model-driven schedules: for tiny instances (generator and exact-arithmetic boundary instances) the reference enumerates its own complete feasible solution set (exhaustive when <= 400/2000 sequences, seeded sample otherwise, brute-force optimum always); the real environment is driven along each solution in batches: every action must be admitted, done exactly at completion, optimum reward equal; at every visited state each must-action of the reference that is not a documented pruning must be offered.",
         note="Exhaustive over the reference's solution set per instance, sampled over instances; never enumerates the implementation's state space. Length/time-window equalities are observations only; capacity and prize equalities are obligations on boundary instances. FFSP only via C07.",
         tech="deterministic simulation: reference-model-generated schedules (model-trace) replayed on the real environment"),
+    "C06": dict(
+        cat="fault_enumeration", ref="5/C06",
+        text="Fault enumeration on recorded solutions: for a base solution (mask-driven episode or reference-built feasible solution, plus padded / no-final-depot shapes) every position x fault-kind single-fault corruption of the action list (drop, duplicate, swap, move, merge routes) and instance-side faults (raise demand, shrink window / length limit / skill, lower prize) is enumerated (capped by seeded sampling); the checker must accept what the independent problem definition accepts and raise for what it rejects beyond the float band. Covers tsp, atsp, cvrp, cvrptw (scaled/unscaled), sdvrp, svrp, op, pctsp, spctsp, pdp (both start modes), mtvrp presets, tsp_kopt and pdp_ruin_repair (successor-array corruptions).",
+        note="Ground truth = rlsim/ref/routing.py violations() and successor-array validity; verdicts inside the band are skipped; any exception counts as rejection. Exhaustive per base solution up to the cap, sampled over instances and base solutions.",
+        tech="deterministic simulation: seeded base histories + exhaustive single-fault injection with independent verdict oracle"),
+    "C07": dict(
+        cat="exploration", ref="5/C07",
+        text="Lock-step batches of FJSP/JSSP (generator and file-loaded instances with shuffled os.listdir, mask_no_ops on/off, padded batches), FFSP (incl. machine-table multi-start) and SMTWTP under wait-eager/averse strategies with stall, snapshot/restore, env pickle/deepcopy restart and alternate-episode perturbations; an independent event-driven dispatcher predicts clock, mask and done at every tick, and an independent validator judges the final schedule (each op once, eligible machine, exact duration, job order, no machine overlap, padded ops untouched, makespan).",
+        note="Trusted: rlsim/ref/scheduling.py (independent dispatcher/validators). clock/slot/mask_hides monitors go beyond the literal statement (mechanism-level) and are kept under separate monitor names. JSSP file writer is a harness stub.",
+        tech="deterministic simulation: seeded scheduler + second independent discrete-event simulator as oracle"),
+    "C08": dict(
+        cat="exploration", ref="5/C08",
+        text="Episodes of FLP, MCP (zero-padded, duplicate-item and hand-built memberships), DPP and MDPP (stub PDN data, keep-out layouts from empty to free==quota) under all selection-order strategies with snapshot/restore, alternate episodes and env pickle/deepcopy mid-episode; per tick: actions distinct and allowed, mask == not chosen and allowed, done exactly at the quota (the configured max_decaps), bookkeeping (FLP distances, MCP weights/membership) equals the reference, reward equals the reference objective.",
+        note="Uniform quota per batch; decap simulator neither modelled nor called; EDA data are stubs.",
+        tech="deterministic simulation: seeded selection-order scheduler + reference bookkeeping model checked per tick"),
+    "C09": dict(
+        cat="exploration", ref="5/C09",
+        text="Histories of 20-60 moves on TSPkoptEnv (k=2,3,4) and PDPRuinRepairEnv from every mask-admitted move (scheduled), the environments' own random-move sampler, DACT/NeuOpt/N2S policies with random weights and step_to_solution, batch sizes incl. 1, snapshot right after improving moves (aliasing case) and mirror batches; after every move: single cycle, PDP precedence, cost_current/cost_bsf equal recomputed lengths and the ledger minimum, cost_bsf monotone, reward = decrease, visited_time consistent, built-in checker accepts rec_best.",
+        note="Trusted: rlsim/ref/improvement.py (list-based tours, ledger). k>=3 moves only from the sampler, NeuOpt and step_to_solution (the env has no move mask for k>2).",
+        tech="deterministic simulation: seeded move scheduler + ledger/reference tour model checked after every move"),
+    "C10": dict(
+        cat="exploration", ref="5/C10",
+        text="Real decoding loops (scripted decoder in five logit modes incl. ties/huge/flat, tiny real AM) over 19 real environments with a swarm over temperature, tanh clipping, top-k, top-p and decode types; a tap on process_logits checks every step against a float64 reference (normalised, masked => -inf, argmax kept, <= k kept up to ties, nucleus mass >= p, shift invariance by re-running the recorded step, greedy maximiser, sampled action has positive probability); sampler faults (1-3 injected zero-probability draws) must be absorbed by the retry loop within one further clean draw.",
+        note="The 'for all real logits' algebra is a pure-function claim; the simulator reaches it only through the values flowing through simulated episodes and under sampler faults (thin for that sub-claim, stated in DESIGN 6). With top-k and top-p both active the nucleus clause is read against the top-k-restricted distribution.",
+        tech="deterministic simulation: seeded decoding episodes with process_logits tap + sampler fault injection (bounded-liveness of the retry loop)"),
+    "C13": dict(
+        cat="exploration", ref="5/C13",
+        text="Beam search through the real policy loop (scripted state-keyed scorer, tiny real AM) on fixed- and variable-length environments, widths 2..n, select_best on/off: history check over the tapped step distributions and the strategy's beam_path: kept (parent, action) pairs are the top-w of parent score + step log-prob (near-ties indeterminate), returned sequences are root-to-leaf paths with the log-probs along that path, evaluate-mode replay reproduces them, every beam is a feasible complete solution (reference violations()), beams with distinct forced starts are distinct, select_best returns the instance's maximum.",
+        note="No full independent re-execution of beam search; induction over recorded steps + path check + evaluate replay. flp/mcp/mtsp/scheduling beams excluded (no independent feasibility oracle for beams).",
+        tech="deterministic simulation: recorded beam histories checked against a reference beam step + evaluate replay"),
+    "C14": dict(
+        cat="exploration", ref="5/C14",
+        text="23 bundled policy x environment pairs in eval mode (AM x 12 envs, PointerNetwork, HAM, MDAM, PolyNet, SymNCO, MatNet with a row-keyed RNG seam, L2D), greedy (and multistart-greedy) decoding: each instance solo (B=1) and inside scheduled compositions (subsets, permutations, duplicates, DataLoader chunking with non-dividing batch sizes); actions, reward and log-likelihood must coincide up to the selection-flip rule; a crash at B=1 is a violation.",
+        note="CPU kernels only; tiny random-weight policies (embed 32); policies that do not construct offline are excluded and listed in evidence. MatNet's inference-time random embedding is made per-instance by the RNG seam.",
+        tech="deterministic simulation: seeded batch-composition scheduler + solo-vs-batched inference history check"),
+    "C15": dict(
+        cat="exploration", ref="5/C15",
+        text="(a) StateAugmentation (symmetric 2-16 copies, dihedral8, first_aug_identity on/off) on scheduled coordinate sets: per-copy distance matrices, copy 0 identity, equal cost of a scheduled action sequence on every copy; (b) evaluate_policy and the five *Eval classes with datasets of 1-23 instances, loader batch sizes that do and do not divide, num_starts/num_augment/samples: reported reward equals the reference objective of the reported actions on the original instance, is the maximum over the candidates a policy tap saw for that instance, and >= solo greedy where the identity candidate is included.",
+        note="Isometry is a pure-function sub-claim reached only on scheduled coordinate sets (thin). Tiny real AM only; environments tsp, cvrp, sdvrp, pdp, op, pctsp.",
+        tech="deterministic simulation: seeded evaluation runs with policy tap + independent objective oracle"),
+    "C16": dict(
+        cat="exploration", ref="5/C16",
+        text="Histories of 1-6 successive shared_step('train') calls with scheduled epoch callbacks for REINFORCE x {no, mean, exponential, rollout, warm-up mixtures, critic}, POMO, SymNCO, A2C and PPO (inner epochs, dividing and non-dividing mini-batches) outside a Trainer via shims: reported loss equals the float64 reference surrogate recomputed from the recorded rollout, baseline values follow the reference state (EMA, warm-up alpha, critic, extra), rewards/baseline values have no gradient path to the policy, shared advantages sum to zero per instance and never mix instances, and the gradient after backward equals the gradient of the reference surrogate.",
+        note="Trainer replaced by shims (log, optimizers, manual_backward, clip_gradients); tiny AM on tsp/cvrp. Gradient tolerance relative 1e-4 plus a conditioning floor when advantages cancel. SymNCO's invariance loss term is taken as reported.",
+        tech="deterministic simulation: seeded training histories with trainer shims + float64 reference surrogates and autograd comparison"),
+    "C17": dict(
+        cat="exploration", ref="5/C17",
+        text="Operation sequences against a reference list of instance fingerprints: the three dataset classes (+ExtraKeyDataset via add_key), eight loader modes (unshuffled, seeded/global shuffle, explicit sampler, _dataloader_single, _dataloader, dict of datasets), batch sizes dividing or not, several epochs; and real REINFORCE modules with rollout / warm-up baselines through setup, train_dataloader, on_train_epoch_end regeneration and re-wrapping: unshuffled reads reproduce order, values, dtypes, shapes and the partial batch; shuffled reads are permutations with fields kept together; the extra travelling with an instance equals the baseline policy's solo greedy reward on it.",
+        note="num_workers=0 only; training replaced by seeded parameter noise.",
+        tech="deterministic simulation: seeded operation sequences against a reference fingerprint list"),
+    "C18": dict(
+        cat="exploration", ref="5/C18",
+        text="21 generators x scheduled parameterisations (sizes incl. off-table, location distributions, capacity overrides, all MTVRP presets, scheduling shapes, CVRPTW scale, OP prize types, small MCP) x seeds under a clean RNG and under the extreme-draw seam (entries of torch.rand/uniform_/randint/randperm/normal moved to the ends of their support, no manufactured ties): no exception, documented keys/shapes/dtypes/ranges/structure (time-window reachability and return slack, triangle inequality, eligibility, preset flags), and solvable: a mask-confined episode from every generated batch completes.",
+        note="Range clauses are pure functions of the draw (thin); the seam reaches rare generator paths. What only the ties sub-mode triggers is an observation, not a violation. DPP/MDPP with stub data.",
+        tech="deterministic simulation: seeded generator runs with RNG fault injection (extreme-draw buggify) + solvability episodes"),
+    "C19": dict(
+        cat="exploration", ref="5/C19",
+        text="Operation sequences with crash points: npz save (plain/compressed, SimFile or path) -> crash -> load; generate_dataset / generator files -> env.load_data / env.dataset(phase) -> episodes compared with the directly fed instance; FJSP/JSSP text directories under shuffled os.listdir -> file generators; env deepcopy/pickle at scheduled ticks mid-episode on all 21 constructive envs (masks, reward, RNG state); Trainer.fit of tiny REINFORCE models with every checkpointable baseline -> save_checkpoint -> crash -> load_from_checkpoint (path and file object, load_baseline on/off): restored policy and rollout-baseline policy give identical greedy actions and rewards.",
+        note="Checkpoints restored in the same process (crash = drop objects + gc). Storage faults (short/torn/bit-flipped files) run in observational mode only (the property speaks of completed writes).",
+        tech="deterministic simulation: seeded operation/crash sequences over in-memory and temp-dir storage with restore-equivalence oracle"),
+    "C20": dict(
+        cat="exploration", ref="5/C20",
+        text="Operation sequences against float64 references: RewardScaler (None/int/norm/scale) fed batches of scheduled sizes 1-64, magnitudes 1e-3..1e3, constant and offset histories, interleaved __call__/update (count exact, mean and variance vs two-pass statistics, output = stated transformation); ExponentialBaseline recurrence (also via the registry); WarmupBaseline with consecutive/repeated/restarted/skipped epoch callbacks (alpha schedule, value = alpha*inner + (1-alpha)*EMA, loss mix).",
+        note="The closed forms are pure functions of the history; the history (order and sizes of observed batches, epoch callbacks) is what the simulator schedules. float32 only.",
+        tech="deterministic simulation: seeded streaming histories against float64 reference state machines"),
     "C04": dict(
         cat="exploration", ref="5/C04",
         text="Seeded search over batch compositions, action schedules and perturbations: each instance is driven solo and inside scheduled batches (copies, strangers, other sizes/positions) with stalls of finished rows, mid-episode reindex/replicate, snapshot/restore and alternate episodes on the same env object; masks, finishing tick and reward must coincide. Sampled, not exhaustive.",
